@@ -355,6 +355,8 @@ def to_iter(it, v):
         return ItOwned(v.items)
     if isinstance(v, Agg) and v.kind == "array":
         return ItOwned(v.fields)
+    if isinstance(v, Agg) and v.kind == "adt:Option":
+        return ItOwned(list(v.fields) if v.variant == 1 else [])
     if isinstance(v, Agg) and v.kind == "adt:Range":
         return ItRange(v.fields[0], v.fields[1])
     if isinstance(v, Agg) and v.kind == "adt:RangeFrom":
@@ -814,6 +816,9 @@ def register_all(M):
             r = str_eq(elems_of(a), elems_of(b))
         elif isinstance(a, Opaque) and a.tag == "PathBuf":
             r = str_eq(a.payload, b.payload)
+        elif isinstance(a, Opaque) and a.tag == "time" and isinstance(b, Opaque):
+            x, y = a.payload, b.payload
+            r = (x == y) if not (is_sym(x) or is_sym(y)) else simp(bv(x, 64) == bv(y, 64))
         elif isinstance(a, Agg) and a.kind == "adt:Rank":
             f = it.p.find_trait_fn("Rank", "PartialEq", "eq")
             r = it.call_function(f, [args[0], args[1]])
@@ -895,16 +900,22 @@ def register_all(M):
         le = z3.ULE(bv(a, bits), bv(b, bits))
         return simp(z3.If(le, bv(a, bits), bv(b, bits)) if is_min else z3.If(le, bv(b, bits), bv(a, bits)))
 
-    @reg("PartialOrd::gt")
+    @reg("PartialOrd::gt", "PartialOrd::lt", "PartialOrd::ge", "PartialOrd::le")
     def m_gt(it, args, callee):
         a = deref(args[0])
         b = deref(args[1])
+        op = callee.strip().split("::")[-1]
         if isinstance(a, Opaque) and a.tag == "time":
             x, y = a.payload, b.payload
-            if is_sym(x) or is_sym(y):
-                return simp(z3.UGT(bv(x, 64), bv(y, 64)))
-            return x > y
-        raise Unsupported("PartialOrd::gt on %r" % (a,))
+        elif not isinstance(a, (Agg, Opaque)) and not isinstance(b, (Agg, Opaque)):
+            x, y = a, b
+        else:
+            raise Unsupported("PartialOrd::%s on %r" % (op, a))
+        if is_sym(x) or is_sym(y):
+            bits = x.size() if is_sym(x) else y.size()
+            f = {"gt": z3.UGT, "lt": z3.ULT, "ge": z3.UGE, "le": z3.ULE}[op]
+            return simp(f(bv(x, bits), bv(y, bits)))
+        return {"gt": x > y, "lt": x < y, "ge": x >= y, "le": x <= y}[op]
 
     # ----------------------------------------------------------------- char
     @reg("char::len_utf8")
